@@ -224,3 +224,17 @@ package ast
 //@ func (c Clause) String()
 //@   trusted
 //@   modifies nothing
+
+//@ func (c Constant) String()
+//@   pure
+//@   trusted
+//@   modifies nothing
+
+// ---- C09: Unescape emits one byte for an ASCII character or a byte escape and the UTF-8 encoding otherwise -----------
+// Per iteration: the output grows by exactly one byte when the character is below 0x80 or comes from a byte escape, and by
+// at least two bytes when a code point from 0x80 upwards has to be encoded.
+//@ func Unescape(s, isBytes)
+//@   opt nosafety
+//@   guard return in loop 1: err != nil
+//@   loop 1 atback (c < 128 || !encode) ==> len(buf) == prev(len(buf)) + 1
+//@   loop 1 atback !(c < 128 || !encode) ==> len(buf) >= prev(len(buf)) + 2
